@@ -404,7 +404,9 @@ class PeerConnection:
                 f"connection is closing without a completed CE, ignoring "
                 f"message")
             return
-        if self.state == PEER_CONNECTED:
+        if self.state in (PEER_CONNECTING, PEER_CONNECTED):
+            # (a socket may deliver bytes before the node has noticed that its
+            # connect attempt completed)
             if msg.header.command_code != constants.CMD_CAPABILITIES_EXCHANGE:
                 self.logger.warning(
                     f"cannot process message right now, expecting a CE message, "
